@@ -24,7 +24,7 @@ ASSUMPTIONS = [
     'sync watchers are recognised structurally (bound method _sync_refs whose owner namespace belongs to the target)',
 ]
 REQUIRED = {'mirror_checks': 8000, 'source_updates': 2000, 'overrides': 300, 'relinks': 300, 'nested_links': 200, 'leak_checks': 3000, 'triggers': 100,
-            'same_reference_reassigned': 20}
+            'same_reference_reassigned': 20, 'overrides_from_trigger_callback': 50}
 
 _st = {}
 _n = [0]
@@ -385,6 +385,22 @@ def run_case(idx, rng, P, rep):
                     plain[ti][tp] = it['saved_plain']
                 else:
                     plain[ti][tp] = it['before']
+        elif c < 0.92 and links[ti]:
+            # a callback running under trigger() overrides ANOTHER linked parameter with a plain value: that is an override
+            tp_b = rng.choice(sorted(links[ti]))
+            tp_a = rng.choice([p for p in ('x', 'y', 'z') if p != tp_b])
+            v = {'x': fresh(), 'y': fresh(), 'z': ('plain', fresh()), 'l': [fresh()], 'd': {'p': fresh()}}[tp_b]
+            steps.append('override-from-trigger-callback')
+            trace.append((steps[-1], ti, tp_a, tp_b, v))
+            rep.count('overrides_from_trigger_callback')
+            w = t.param.watch(lambda e, tp_b=tp_b, v=v: setattr(t, tp_b, v), tp_a, onlychanged=False)
+            try:
+                t.param.trigger(tp_a)
+            finally:
+                t.param.unwatch(w)
+            links[ti].pop(tp_b, None)
+            plain[ti][tp_b] = v
+            unspec[ti].discard(tp_b)
         elif c < 0.95:
             # re-announcing the current value is not an assignment: a link must survive it
             tp = rng.choice(['x', 'y', 'z', 'l'])
